@@ -762,6 +762,23 @@ func TestC13Structured(t *testing.T) {
 					// ... and so does the peer, before it has seen the victim's request.
 					w.P.Rtr.VerifExpireHello(w.V.IP())
 					_, _ = w.P.Rtr.HelloPing.Send(w.V.IP())
+					switch c.Pick("own-hello.peer-request-fate", 3) {
+					case 1:
+						// The peer's request is under way for long: at the peer it has
+						// expired and the cleaner has run when the victim's request
+						// arrives, so the peer answers that one as well. Both messages
+						// then reach the victim, the older request first.
+						w.P.Rtr.VerifExpireHello(w.V.IP())
+						_ = w.P.Rtr.HelloPing.Clean(nil)
+						c.Class("structured/own-hello-peer-request-outlived-its-state")
+					case 2:
+						// The peer's first request got no answer in time; it asks again.
+						time.Sleep(2 * time.Millisecond)
+						w.P.Rtr.VerifExpireHello(w.V.IP())
+						_ = w.P.Rtr.HelloPing.Clean(nil)
+						_, _ = w.P.Rtr.HelloPing.Send(w.V.IP())
+						c.Class("structured/own-hello-peer-asks-twice")
+					}
 				}
 				var answers []*vnet.InFlight
 				for steps := 0; len(vn.Queue) > 0 && steps < 30; steps++ {
